@@ -26,13 +26,14 @@ def sched(what: str, ref: str) -> tuple:
 CHECKS = {
     'C01': sched('the lifecycle-graph oracle (first state CREATED, every ENTERED pair an edge of the documented graph, the '
                  'terminal state and its outcome unchanged at every later sample including a post-mortem barrage of all '
-                 'control calls, step(), execute() and late callbacks); requests are also placed after termination; the smallest '
+                 'control calls, step(), execute() and late callbacks); requests are also placed after termination; programs also end in '
+                 'the rarer step commands (Kill without a message, Stop with either flag, None); the smallest '
                  'programs are explored with K=4 (thorough 5).', 'DESIGN.md 3 C01'),
     'C02': sched('the outcome-agreement oracle (future/result()/successful()/killed_msg()/exception() agree, one terminal '
                  'listener notification - also next to a listener that unsubscribes itself inside a notification -, cleanups once, closed, '
                  'step_until_terminated() returned; future pending while live, sampled after every choice); requests include '
                  'withdrawing a pending pause / kill by cancelling the action it returned; also on work chains awaiting '
-                 'futures / children and with K=4 on the smallest programs.', 'DESIGN.md 3 C02'),
+                 'futures / children and with K=4 on the smallest programs (there also a pause with a message).', 'DESIGN.md 3 C02'),
     'C03': ('fault-enumerator',
             'exhaustive fault-point enumeration (every hook / user function x occurrence x before|after super) over every '
             'single-request placement scenario on the real Process',
@@ -53,12 +54,15 @@ CHECKS = {
                  'DESIGN.md 3 C04'),
     'C05': sched('the pause/play transparency oracle (no raise, nothing runs while paused, play un-pauses and withdraws a '
                  'pending pause - as does cancelling the action pause() returned -, trace/outputs/result equal to the uninterrupted run, '
-                 'status restored); also on work chains '
+                 'status restored, no step is entered while a pause request stands); also on work chains '
                  'and with K=4 (thorough 6) on the smallest programs.',
                  'DESIGN.md 3 C05'),
     'C06': sched('the wake-up oracle (an accepted resume / completed awaitables always lead to the continuation running '
                  'exactly once with the first accepted value - also a value whose == answers yes to everything -, never WAITING at '
-                 'quiescence after play; a kill that is withdrawn again does not cost the wake-up).',
+                 'quiescence after play; a kill that is withdrawn again does not cost the wake-up); in addition bursts of <=5 (thorough 6) '
+                 'requests right behind one another at the quiescent points of the waiting programs (the closing play only if a pause '
+                 'request stands), and every burst history of a second process after every burst history of a first one in the same '
+                 'fresh interpreter (what a process does with its wake-ups does not depend on earlier processes).',
                  'DESIGN.md 3 C06'),
     'C09': ('input-enumerator',
             'bounded-exhaustive enumeration of outline ASTs x exhaustive exploration (prefix-replay DFS) of every '
@@ -102,7 +106,8 @@ CHECKS = {
             'nested-dynamic paths and values x final return is run; acceptance of each out(), the stored outputs, the '
             'exception type, listener notifications, result preservation and the success flag are compared with '
             'pv/refports.py. Each sequence runs on a fresh class; in addition every single emission is made by a second process '
-            'of a class whose first process made any single emission.',
+            'of a class whose first process made any single emission. Paths include names declared one level up below an undeclared '
+            'name; finals include the Stop command with either flag.',
             'Trusts the reference model; mappings as values and paths through leaf ports are '
             'outside the alphabet.', 'DESIGN.md 3 C12'),
     'C14': ('history-bfs',
@@ -113,7 +118,10 @@ CHECKS = {
             'live processes (a work chain mutating ctx objects in place and a waiting process), tags (falsy ones included) and integer, UUID '
             'and string ids chosen to be string prefixes of each other; after every operation InMemoryPersister and '
             'PicklePersister (fresh /dev/shm directory per history) must agree with a dict model and with each other; '
-            'loaded bundles are compared with the snapshot taken at save time although the process advanced since.',
+            'loaded bundles are compared with the snapshot taken at save time although the process advanced since. In addition every '
+            'history (no merging by canonical state) of <=4 (thorough 5) operations over the focused alphabet of one key is run, each '
+            'followed by a load of every stored key and the listing (a persister that keeps more than its store - a cache of what it '
+            'wrote or read - differs between histories that reach the same canonical state).',
             'Canonical state = stored key -> snapshot version + live progress (only used to prune); depth bound and '
             'closure are reported in the evidence; no crash consistency of pickle files is claimed.', 'DESIGN.md 3 C14'),
     'C15': ('input-enumerator',
@@ -144,7 +152,9 @@ CHECKS = {
             'state-entry boundaries is taken as crash points: Bundle -> pickle (thorough: deepcopy, yaml) -> the running '
             'instance is abandoned by an exception out of the ENTERED callback -> unbundle on a fresh loop -> continue; '
             'executed steps (persisted trace and cross-instance log), outputs, ctx, final state and result must equal the '
-            'uninterrupted run; every single boundary is also restored while another loop is the current one.',
+            'uninterrupted run; every single boundary is also restored while another loop is the current one; for the outlines the '
+            'checkpoint is also taken when the k-th step has returned and its state is being left, after spare checkpoints written '
+            'at every state entry.',
             'Steps depend only on persisted state; checkpoints at state entry and right after construction; bounds M and '
             'families as reported in the evidence.', 'DESIGN.md 3 C08'),
     'C16': (SCHED, SCHED_TECH + '; twin executions at quiescent delivery points; exhaustive broadcast-fault enumeration',
@@ -171,7 +181,9 @@ CHECKS = {
     'C18': (SCHED, SCHED_TECH,
             'Scenarios of 1-3 concurrently stepping processes (plain, launching a child from a step, executing a child '
             're-entrantly inside a step through the nested run_until_complete) with async steps on environment gates, '
-            'scheduled callbacks and every lifecycle/pause/play/output hook (init and on_create included) overridden sample Process.current(); so do an '
+            'scheduled callbacks and every lifecycle/pause/play/output hook (init and on_create included) overridden sample Process.current(); also a '
+            'never-stepped process whose scheduled callback executes another one whose step pauses and plays it (three nesting levels) '
+            'and a WAITING state class of the user\'s own; so do an '
             'observer task that is no process and the harness between callbacks. Every order and placement of the gate '
             'completions and resumes (plus one pause+play) is explored; every sample must be the executing process, or '
             'None outside of any process.',
